@@ -275,7 +275,7 @@ func neighbours(v *vg.V) []*vg.V {
 			return true
 		})
 	}
-	return out
+	return append(out, textNeighbours(v)...)
 }
 
 // lawsOnImpl evaluates the laws of the property on the implementation alone, over all pairs and
@@ -303,6 +303,11 @@ func lawsOnImpl(vs []*vg.V) (law string, idx []int, what string) {
 			}
 			if scalarKind(vs[i].K) && vs[i].K == vs[j].K && (c[i][j].cmp == 0) != c[i][j].eq {
 				return "cmp-zero-iff-eq", []int{i, j}, fmt.Sprintf("CompareTo sign %d but Equals %v", c[i][j].cmp, c[i][j].eq)
+			}
+			if k := vs[i].K; k == vs[j].K && (k == "l" || k == "m" || k == "im") && (c[i][j].cmp == 0) != c[i][j].eq {
+				if x, y, found := nestedZeroIffEq(vs[i], vs[j]); found {
+					return "cmp-zero-iff-eq", []int{i, j}, fmt.Sprintf("CompareTo sign %d but Equals %v, down to the corresponding scalars %s and %s", c[i][j].cmp, c[i][j].eq, vh.Clip(x.LineX(), 200), vh.Clip(y.LineX(), 200))
+				}
 			}
 			if c[i][j].eq != c[j][i].eq {
 				return "eq-symm", []int{i, j}, "Equals is not symmetric"
@@ -346,6 +351,13 @@ func searchAround(a, b *vg.V, others []*vg.V) (law string, vals []*vg.V, what st
 	}
 	for _, i := range idx {
 		vals = append(vals, vs[i])
+	}
+	if law == "cmp-zero-iff-eq" && len(vals) == 2 && !scalarKind(vals[0].K) {
+		// found through containers: report the scalars (the failure is theirs), name the containers
+		if x, y, found := nestedZeroIffEq(vals[0], vals[1]); found {
+			what += "; reached as corresponding elements of " + vh.Clip(vals[0].LineX(), 300) + " and " + vh.Clip(vals[1].LineX(), 300)
+			vals = []*vg.V{x, y}
+		}
 	}
 	return law, vals, what
 }
